@@ -1,7 +1,1125 @@
-//! C04 — node-level correspondence harness (stub; see /verif/AGENT_GUIDE.md).
+//! C04 — a transaction is accepted iff inputs are live and unspent and all tx rules hold.
+//!
+//! Streams (first extra argument):
+//!   time     `TimeRelativeTransactionVerifier` (MaturityVerifier + SinceVerifier) of the real
+//!            `ckb-verification` crate over a mock `HeaderFieldsProvider` chain, all three
+//!            `TxVerifyEnv` phases
+//!   resolve  `ckb_types::core::cell::resolve_transaction` over synthetic `CellProvider`s (overlay
+//!            of two tables) and a synthetic `HeaderChecker`; `seen_inputs` threads through the tx
+//!            lines of a case as it does through a block
+//!   cap      `CapacityVerifier`
+//!   node     the same kind of transactions on a real node: in a block (`ChainController`) and through
+//!            the tx-pool (`TxPoolController::submit_local_tx`), compared with the direct call
+//!
+//! Line protocol (model side: lean/CkbVerif/Driver/C04.lean):
+//!   time:    cfg <closest> <maturity> <median_count> <rfc0028_epoch>
+//!            hdr <id> <number> <epoch> <timestamp_ms> <parent_id>          (ids ≥ 1; parent 0 = none)
+//!            env <s|p|c> <n_blocks> <hdr_id>
+//!            tx <since:info,...> <info,...>      info = n | <block_number>.<epoch>.<hdr_id>.<tx_index>
+//!   resolve: cell <A|B> <tx>.<idx> <L|D|U> <data>   data = - | x | e | g:<tx>.<idx>,... | r:<tx>:<n>
+//!            hdrs <ids>      seen <ops>
+//!            tx <inputs> <deps: c<tx>.<idx> | g<tx>.<idx>> <header_dep_ids>
+//!   cap:     cap <cap[:d],...> <cap:lock_args:type_args|n:data_len,...>
+//! Every generated case is executed through the same parser that `--replay` uses.
 use crate::common::*;
+use ckb_chain_spec::consensus::{Consensus, ConsensusBuilder, ProposalWindow};
+use ckb_error::Error;
+use ckb_traits::{HeaderFields, HeaderFieldsProvider};
+use ckb_types::bytes::Bytes;
+use ckb_types::core::cell::{
+    CellMeta, CellProvider, CellStatus, HeaderChecker, OverlayCellProvider, ResolvedTransaction, resolve_transaction,
+};
+use ckb_types::core::error::{OutPointError, TransactionError, TransactionErrorSource};
+use ckb_types::core::hardfork::{CKB2021, CKB2023, HardForks};
+use ckb_types::core::{
+    Capacity, DepType, EpochNumberWithFraction, HeaderBuilder, HeaderView, ScriptHashType, TransactionBuilder, TransactionInfo,
+    TransactionView,
+};
+use ckb_types::packed::{Byte32, CellDep, CellInput, CellOutput, OutPoint, OutPointVec, Script};
+use ckb_types::prelude::*;
+use ckb_verification::{CapacityVerifier, TimeRelativeTransactionVerifier, TxVerifyEnv};
+use std::collections::{HashMap, HashSet};
+use std::sync::Arc;
 
-pub fn run(_opts: &Opts) {
-    eprintln!("C04: harness not implemented");
-    std::process::exit(2);
+// ------------------------------------------------------------------------------------------------
+// helpers
+// ------------------------------------------------------------------------------------------------
+
+fn pnum(s: &str) -> u64 {
+    if let Some(h) = s.strip_prefix("0x") { u64::from_str_radix(h, 16).expect("hex") } else { s.parse().unwrap_or_else(|_| panic!("bad number {s:?}")) }
+}
+
+fn plist(s: &str) -> Vec<&str> {
+    if s == "-" { vec![] } else { s.split(',').collect() }
+}
+
+fn quiet_catch<T>(f: impl FnOnce() -> T) -> Result<T, ()> {
+    std::panic::catch_unwind(std::panic::AssertUnwindSafe(f)).map_err(|_| ())
+}
+
+fn op_of(tx: u64, idx: u64) -> OutPoint {
+    let mut h = [0u8; 32];
+    if tx != 0 {
+        h[..8].copy_from_slice(&tx.to_le_bytes());
+        h[31] = 0xAB;
+    }
+    OutPoint::new(Byte32::from_slice(&h).unwrap(), idx as u32)
+}
+
+fn op_ids(op: &OutPoint) -> (u64, u64) {
+    let h = op.tx_hash();
+    let raw = h.as_slice();
+    let mut b = [0u8; 8];
+    b.copy_from_slice(&raw[..8]);
+    let idx: u32 = op.index().into();
+    (u64::from_le_bytes(b), idx as u64)
+}
+
+fn show_op(op: &OutPoint) -> String {
+    let (a, b) = op_ids(op);
+    format!("{a}.{b}")
+}
+
+fn show_ops<'a>(it: impl Iterator<Item = &'a OutPoint>) -> String {
+    let v: Vec<String> = it.map(show_op).collect();
+    if v.is_empty() { "-".into() } else { v.join(",") }
+}
+
+fn parse_op(s: &str) -> OutPoint {
+    let (a, b) = s.split_once('.').unwrap_or_else(|| panic!("bad out point {s:?}"));
+    op_of(pnum(a), pnum(b))
+}
+
+fn hdr_hash_id(h: u64) -> Byte32 {
+    let mut b = [0u8; 32];
+    b[..8].copy_from_slice(&h.to_le_bytes());
+    b[31] = 0xCD;
+    Byte32::from_slice(&b).unwrap()
+}
+
+// ------------------------------------------------------------------------------------------------
+// stream: time
+// ------------------------------------------------------------------------------------------------
+
+#[derive(Clone, Default)]
+struct Loader(Arc<HashMap<Byte32, (u64, u64, u64, Byte32)>>); // hash -> number, epoch, ts, parent
+
+impl HeaderFieldsProvider for Loader {
+    fn get_header_fields(&self, hash: &Byte32) -> Option<HeaderFields> {
+        self.0.get(hash).map(|(n, e, t, p)| HeaderFields {
+            hash: hash.clone(),
+            number: *n,
+            epoch: EpochNumberWithFraction::from_full_value_unchecked(*e),
+            timestamp: *t,
+            parent_hash: p.clone(),
+        })
+    }
+}
+
+#[derive(Clone, Copy, Debug)]
+struct Hdr {
+    number: u64,
+    epoch: u64,
+    ts: u64,
+    parent: u64,
+}
+
+#[derive(Clone, Copy, Debug)]
+struct Info {
+    bn: u64,
+    ep: u64,
+    bh: u64,
+    idx: u64,
+}
+
+struct TimeCase {
+    closest: u64,
+    maturity: u64,
+    median: u64,
+    rfc0028: u64,
+    hdrs: Vec<(u64, Hdr)>,
+    views: HashMap<u64, HeaderView>,
+    env: Option<(char, u64, u64)>,
+    consensus: Option<Arc<Consensus>>,
+}
+
+fn ep_fields(e: u64) -> (u128, u128, u128) {
+    ((e & 0xff_ffff) as u128, ((e >> 24) & 0xffff) as u128, ((e >> 40) & 0xffff) as u128)
+}
+
+/// epoch as an exact fraction (numerator, denominator); value 0 = 0/1; length 0 otherwise = None
+fn ep_frac(e: u64) -> Option<(u128, u128)> {
+    if e == 0 {
+        return Some((0, 1));
+    }
+    let (n, i, l) = ep_fields(e);
+    if l == 0 { None } else { Some((n * l + i, l)) }
+}
+
+impl TimeCase {
+    fn new() -> Self {
+        TimeCase { closest: 2, maturity: 0, median: 37, rfc0028: 0, hdrs: vec![], views: HashMap::new(), env: None, consensus: None }
+    }
+
+    fn hdr(&self, id: u64) -> Option<Hdr> {
+        self.hdrs.iter().find(|(i, _)| *i == id).map(|(_, h)| *h)
+    }
+
+    fn consensus(&mut self) -> Arc<Consensus> {
+        if self.consensus.is_none() {
+            let hf = HardForks {
+                ckb2021: CKB2021::new_dev_default().as_builder().rfc_0028(self.rfc0028).build().unwrap(),
+                ckb2023: CKB2023::new_dev_default(),
+            };
+            let c = ConsensusBuilder::default()
+                .tx_proposal_window(ProposalWindow(self.closest, self.closest + 8))
+                .cellbase_maturity(EpochNumberWithFraction::from_full_value_unchecked(self.maturity))
+                .median_time_block_count(self.median as usize)
+                .hardfork_switch(hf)
+                .build();
+            self.consensus = Some(Arc::new(c));
+        }
+        self.consensus.clone().unwrap()
+    }
+
+    /// independent recomputation of the median time (u128, plain definition)
+    fn spec_median(&self, mut id: u64) -> Option<u128> {
+        let mut ts = vec![];
+        for _ in 0..self.median {
+            let h = self.hdr(id)?;
+            ts.push(h.ts as u128);
+            if h.number == 0 {
+                break;
+            }
+            id = h.parent;
+        }
+        ts.sort();
+        if ts.is_empty() { None } else { Some(ts[ts.len() / 2]) }
+    }
+
+    /// The acceptance predicate of the property, recomputed independently (exact integer / fraction
+    /// arithmetic on u128, fields decoded by shifts): Some(true) accept, Some(false) reject, None = the
+    /// context itself is malformed (a chain epoch with length 0), no claim.
+    fn spec_accepts(&self, inputs: &[(u64, Option<Info>)], deps: &[Option<Info>]) -> Option<bool> {
+        let (phase, n, hid) = self.env?;
+        let tip = self.hdr(hid)?;
+        let commit_number: u128 = match phase {
+            's' => tip.number as u128 + 1 + self.closest as u128,
+            'p' => (tip.number.saturating_sub(n)) as u128 + self.closest as u128,
+            _ => tip.number as u128,
+        };
+        let commit_parent = if phase == 'c' { tip.parent } else { hid };
+        let cur = ep_frac(tip.epoch)?;
+        let ge = |a: (u128, u128), b: (u128, u128)| a.0 * b.1 >= b.0 * a.1;
+        let add = |a: (u128, u128), b: (u128, u128)| (a.0 * b.1 + b.0 * a.1, a.1 * b.1);
+        // cellbase maturity: inputs and deps
+        let mat = ep_frac(self.maturity)?;
+        for info in inputs.iter().map(|(_, i)| i).chain(deps.iter()) {
+            if let Some(i) = info {
+                if i.bn > 0 && i.idx == 0 {
+                    let created = ep_frac(i.ep)?;
+                    if !ge(cur, add(mat, created)) {
+                        return Some(false);
+                    }
+                }
+            }
+        }
+        // commit epoch number for the RFC-28 switch
+        let (tn, ti, tl) = ep_fields(tip.epoch);
+        let ahead: u128 = match phase {
+            's' => 1 + self.closest as u128,
+            'p' => self.closest.saturating_sub(n) as u128,
+            _ => 0,
+        };
+        let commit_epoch_number = if ti + ahead >= tl { tn + 1 } else { tn };
+        for (since, info) in inputs {
+            let s = *since;
+            if s == 0 {
+                continue;
+            }
+            let relative = (s >> 63) & 1 == 1;
+            let metric = (s >> 61) & 3;
+            let reserved = (s >> 56) & 0x1f;
+            let value = (s & ((1u64 << 56) - 1)) as u128;
+            if reserved != 0 || metric == 3 {
+                return Some(false);
+            }
+            if relative && info.is_none() {
+                return Some(false);
+            }
+            match metric {
+                0 => {
+                    let base = if relative { info.unwrap().bn as u128 } else { 0 };
+                    if commit_number < base + value {
+                        return Some(false);
+                    }
+                }
+                1 => {
+                    let (vn, vi, vl) = ep_fields(value as u64);
+                    let well_formed = vl > vi || (vl == 0 && vi == 0);
+                    if !well_formed {
+                        return Some(false);
+                    }
+                    let inc = if vl == 0 { (vn, 1) } else { (vn * vl + vi, vl) };
+                    let base = if relative { ep_frac(info.unwrap().ep)? } else { (0, 1) };
+                    if !ge(cur, add(base, inc)) {
+                        return Some(false);
+                    }
+                }
+                _ => {
+                    let ms = value * 1000;
+                    let now = self.spec_median(commit_parent)?;
+                    let base = if relative {
+                        let i = info.unwrap();
+                        let h = self.hdr(i.bh)?;
+                        if commit_epoch_number >= self.rfc0028 as u128 { h.ts as u128 } else { self.spec_median(h.parent)? }
+                    } else {
+                        0
+                    };
+                    if now < base + ms {
+                        return Some(false);
+                    }
+                }
+            }
+        }
+        Some(true)
+    }
+}
+
+fn parse_info(s: &str) -> Option<Info> {
+    if s == "n" {
+        return None;
+    }
+    let p: Vec<u64> = s.split('.').map(pnum).collect();
+    assert!(p.len() == 4, "bad info {s:?}");
+    Some(Info { bn: p[0], ep: p[1], bh: p[2], idx: p[3] })
+}
+
+fn time_error_class(e: &Error) -> String {
+    match e.downcast_ref::<TransactionError>() {
+        Some(TransactionError::InvalidSince { index }) => format!("invalid-since {index}"),
+        Some(TransactionError::Immature { index }) => format!("immature {index}"),
+        Some(TransactionError::CellbaseImmaturity { inner, index }) => {
+            let s = match inner {
+                TransactionErrorSource::Inputs => "inputs",
+                TransactionErrorSource::CellDeps => "deps",
+                _ => "other",
+            };
+            format!("cellbase-immature {s} {index}")
+        }
+        _ => format!("other-error"),
+    }
+}
+
+fn exec_time(lines: &[String], out: &mut Out) {
+    let mut c = TimeCase::new();
+    for line in lines {
+        let t: Vec<&str> = line.split(' ').collect();
+        match t[0] {
+            "cfg" => {
+                c.closest = pnum(t[1]);
+                c.maturity = pnum(t[2]);
+                c.median = pnum(t[3]);
+                c.rfc0028 = pnum(t[4]);
+                c.consensus = None;
+                out.op(line, "ok");
+            }
+            "hdr" => {
+                let id = pnum(t[1]);
+                let h = Hdr { number: pnum(t[2]), epoch: pnum(t[3]), ts: pnum(t[4]), parent: pnum(t[5]) };
+                let parent_hash = match c.views.get(&h.parent) {
+                    Some(v) => v.hash(),
+                    None => hdr_hash_id(h.parent),
+                };
+                let view = HeaderBuilder::default()
+                    .number(h.number)
+                    .epoch(EpochNumberWithFraction::from_full_value_unchecked(h.epoch))
+                    .timestamp(h.ts)
+                    .parent_hash(parent_hash)
+                    .nonce(id as u128)
+                    .build();
+                c.views.insert(id, view);
+                c.hdrs.push((id, h));
+                out.op(line, "ok");
+            }
+            "env" => {
+                let ph = t[1].chars().next().unwrap();
+                assert!(matches!(ph, 's' | 'p' | 'c'));
+                let hid = pnum(t[3]);
+                assert!(c.views.contains_key(&hid), "env: unknown header");
+                c.env = Some((ph, pnum(t[2]), hid));
+                out.op(line, "ok");
+            }
+            "tx" => {
+                let inputs: Vec<(u64, Option<Info>)> = plist(t[1])
+                    .iter()
+                    .map(|it| {
+                        let (a, b) = it.split_once(':').expect("since:info");
+                        (pnum(a), parse_info(b))
+                    })
+                    .collect();
+                let deps: Vec<Option<Info>> = plist(t[2]).iter().map(|s| parse_info(s)).collect();
+                let (ph, n, hid) = c.env.expect("env first");
+                let tip = c.views.get(&hid).unwrap().clone();
+                let env = match ph {
+                    's' => TxVerifyEnv::new_submit(&tip),
+                    'p' => TxVerifyEnv::new_proposed(&tip, n),
+                    _ => TxVerifyEnv::new_commit(&tip),
+                };
+                let mut map = HashMap::new();
+                for (id, h) in &c.hdrs {
+                    let v = c.views.get(id).unwrap();
+                    map.insert(v.hash(), (h.number, h.epoch, h.ts, v.parent_hash()));
+                }
+                let loader = Loader(Arc::new(map));
+                let meta = |k: usize, info: &Option<Info>| -> CellMeta {
+                    CellMeta {
+                        cell_output: CellOutput::new_builder().capacity(Capacity::shannons(100)).build(),
+                        out_point: op_of(1000 + k as u64, 0),
+                        transaction_info: info.map(|i| TransactionInfo {
+                            block_hash: c.views.get(&i.bh).map(|v| v.hash()).unwrap_or_else(|| hdr_hash_id(i.bh)),
+                            block_number: i.bn,
+                            block_epoch: EpochNumberWithFraction::from_full_value_unchecked(i.ep),
+                            index: i.idx as usize,
+                        }),
+                        data_bytes: 0,
+                        mem_cell_data: None,
+                        mem_cell_data_hash: None,
+                    }
+                };
+                let mut tb = TransactionBuilder::default();
+                for (k, (since, _)) in inputs.iter().enumerate() {
+                    tb = tb.input(CellInput::new(op_of(1000 + k as u64, 0), *since));
+                }
+                let rtx = Arc::new(ResolvedTransaction {
+                    transaction: tb.build(),
+                    resolved_inputs: inputs.iter().enumerate().map(|(k, (_, i))| meta(k, i)).collect(),
+                    resolved_cell_deps: deps.iter().enumerate().map(|(k, i)| meta(100 + k, i)).collect(),
+                    resolved_dep_groups: vec![],
+                });
+                let consensus = c.consensus();
+                let r = quiet_catch(|| TimeRelativeTransactionVerifier::new(rtx, consensus, loader, Arc::new(env)).verify());
+                let ans = match &r {
+                    Ok(Ok(())) => "ok".to_string(),
+                    Ok(Err(e)) => time_error_class(e),
+                    Err(()) => "panic".to_string(),
+                };
+                out.op(line, &ans);
+                out.count(&format!("verdict:{}", ans.split(' ').next().unwrap()));
+                // coverage fingerprint
+                let mut fp = vec![format!("{ph}"), ans.split(' ').take(2).collect::<Vec<_>>().join("-")];
+                for (s, i) in &inputs {
+                    if *s != 0 {
+                        fp.push(format!("{}{}{}", (s >> 63) & 1, (s >> 61) & 3, if i.is_some() { "i" } else { "n" }));
+                        out.count(&format!("since:rel{}-metric{}", (s >> 63) & 1, (s >> 61) & 3));
+                    }
+                }
+                let cb = inputs.iter().map(|(_, i)| i).chain(deps.iter()).any(|i| matches!(i, Some(x) if x.idx == 0 && x.bn > 0));
+                if inputs.iter().any(|(s, _)| *s != 0) || cb {
+                    out.nontrivial(fp.join("/"));
+                }
+                // oracle: the property's acceptance predicate, recomputed independently
+                match (c.spec_accepts(&inputs, &deps), &r) {
+                    (Some(spec), Ok(res)) => {
+                        if spec != res.is_ok() {
+                            out.oracle_fail(
+                                if spec { "time-rejects-valid" } else { "time-accepts-invalid" },
+                                &format!("spec={spec} impl={ans} op={line}"),
+                            );
+                        }
+                    }
+                    (Some(spec), Err(())) => {
+                        out.oracle_fail("since-verifier-panics", &format!("spec={spec} impl=panic op={line}"));
+                    }
+                    (None, _) => out.count("spec:no-claim"),
+                }
+            }
+            _ => panic!("time: bad op {line:?}"),
+        }
+    }
+}
+
+fn ep_pack(n: u64, i: u64, l: u64) -> u64 {
+    (l << 40) | (i << 24) | n
+}
+
+fn gen_time(rng: &mut Rng) -> Vec<String> {
+    let mut v = vec![];
+    let closest = rng.below(4);
+    let l = *rng.pick(&[1u64, 2, 3, 5, 10, 1000]);
+    let maturity = match rng.below(6) {
+        0 => 0,
+        1 => ep_pack(0, 0, 1),
+        2 => ep_pack(1, 0, 1),
+        3 => ep_pack(0, 1, 2),
+        4 => ep_pack(rng.range(0, 3), rng.below(l), l),
+        _ => ep_pack(4, 0, 1),
+    };
+    let median = *rng.pick(&[1u64, 2, 3, 4, 5, 11, 37]);
+    let n = rng.range(1, 24);
+    let e0 = if rng.chance(1, 8) { (1 << 24) - 3 } else { rng.below(4) };
+    let off = rng.below(l);
+    let base_ts = if rng.chance(1, 5) { rng.range(0, 5000) } else { 1_600_000_000_000 + rng.below(1_000_000) };
+    let step = *rng.pick(&[1u64, 7, 1000, 8000]);
+    // headers: id k+1 has number k
+    let mut hdrs: Vec<Hdr> = vec![];
+    for k in 0..n {
+        let epoch = if k == 0 { 0 } else { ep_pack(e0 + (k + off) / l, (k + off) % l, l) };
+        let jitter = if rng.chance(1, 4) { rng.below(3 * step) } else { 0 };
+        let ts = base_ts + k * step + jitter;
+        hdrs.push(Hdr { number: k, epoch, ts, parent: k });
+    }
+    let tip_id = if rng.chance(3, 4) { n } else { rng.range(1, n) };
+    let tip = hdrs[(tip_id - 1) as usize];
+    let rfc = match rng.below(5) {
+        0 => 0,
+        1 => tip.epoch & 0xff_ffff,
+        2 => (tip.epoch & 0xff_ffff) + 1,
+        3 => u64::MAX,
+        _ => rng.below(4),
+    };
+    v.push(format!("cfg {closest} {maturity} {median} {rfc}"));
+    for (k, h) in hdrs.iter().enumerate() {
+        v.push(format!("hdr {} {} {} {} {}", k + 1, h.number, h.epoch, h.ts, h.parent));
+    }
+    let phase = *rng.pick(&['s', 'p', 'c']);
+    let nb = if phase == 'p' { rng.below(closest + 3) } else { 0 };
+    v.push(format!("env {phase} {nb} {tip_id}"));
+    // the harness's own view of the thresholds, to aim at the boundaries
+    let commit_number = match phase {
+        's' => tip.number + 1 + closest,
+        'p' => tip.number.saturating_sub(nb) + closest,
+        _ => tip.number,
+    };
+    let commit_parent = if phase == 'c' { tip.parent } else { tip_id };
+    let med = |mut id: u64| -> u64 {
+        let mut ts = vec![];
+        for _ in 0..median {
+            if id == 0 {
+                break;
+            }
+            let h = hdrs[(id - 1) as usize];
+            ts.push(h.ts);
+            if h.number == 0 {
+                break;
+            }
+            id = h.parent;
+        }
+        ts.sort();
+        if ts.is_empty() { 0 } else { ts[ts.len() / 2] }
+    };
+    let now = med(commit_parent);
+    let mut gen_info = |rng: &mut Rng| -> Option<Info> {
+        if rng.chance(1, 8) {
+            return None;
+        }
+        let id = rng.range(1, tip_id);
+        let h = hdrs[(id - 1) as usize];
+        let idx = if rng.chance(1, 2) { 0 } else { rng.range(1, 3) };
+        Some(Info { bn: h.number, ep: h.epoch, bh: id, idx })
+    };
+    let show_info = |i: &Option<Info>| match i {
+        None => "n".to_string(),
+        Some(i) => format!("{}.{}.{}.{}", i.bn, i.ep, i.bh, i.idx),
+    };
+    let txs = rng.range(1, 3);
+    for _ in 0..txs {
+        let nin = rng.range(1, 3);
+        let mut ins = vec![];
+        for _ in 0..nin {
+            let info = gen_info(rng);
+            let since: u64 = if rng.chance(1, 8) {
+                0
+            } else {
+                let rel = rng.chance(1, 2);
+                let metric = if rng.chance(1, 16) { 3 } else { rng.below(3) };
+                let reserved = if rng.chance(1, 16) { rng.range(1, 31) } else { 0 };
+                let delta = *rng.pick(&[0i64, 0, 1, -1, 2, -2]);
+                let value: u64 = match metric {
+                    0 => {
+                        let base = if rel { info.map(|i| i.bn).unwrap_or(0) } else { 0 };
+                        match rng.below(8) {
+                            0 => rng.below(1 << 20),
+                            1 => (1u64 << 56) - 1,
+                            _ => (commit_number as i64 - base as i64 + delta).max(0) as u64,
+                        }
+                    }
+                    1 => {
+                        // aim: base + inc ≈ current epoch, in units of blocks of length l
+                        let (tn, ti, tl) = (tip.epoch & 0xff_ffff, (tip.epoch >> 24) & 0xffff, (tip.epoch >> 40) & 0xffff);
+                        let cur_blocks = if tl == 0 { 0 } else { tn * l + ti };
+                        let base_blocks = if rel {
+                            info.map(|i| if i.ep == 0 { 0 } else { (i.ep & 0xff_ffff) * l + ((i.ep >> 24) & 0xffff) }).unwrap_or(0)
+                        } else {
+                            0
+                        };
+                        let d = (cur_blocks as i64 - base_blocks as i64 + delta).max(0) as u64;
+                        match rng.below(12) {
+                            0 => ep_pack(d / l, d % l, 0),            // length 0, maybe index != 0
+                            1 => ep_pack(d / l, 0, 0),                // length 0, index 0 (normalised)
+                            2 => ep_pack(d / l, l, l),                // index == length
+                            3 => ep_pack(d / l, l + 1, l),            // index > length
+                            4 => ep_pack(d / l, (d % l) * 2, l * 2),  // same value, other denominator
+                            5 => ep_pack(d / l, (d % l) * 7 + rng.below(7), l * 7),
+                            6 => ep_pack(rng.below(1 << 24), rng.below(1 << 16), rng.below(1 << 16)),
+                            7 => rng.below(1 << 56),
+                            _ => ep_pack(d / l, d % l, l),
+                        }
+                    }
+                    2 => {
+                        let base = if rel {
+                            info.map(|i| {
+                                let h = hdrs[(i.bh - 1) as usize];
+                                if rng.chance(1, 2) { h.ts } else { med(h.parent) }
+                            })
+                            .unwrap_or(0)
+                        } else {
+                            0
+                        };
+                        match rng.below(12) {
+                            0 => 18_446_744_073_709_551, // largest value whose *1000 fits u64
+                            1 => 18_446_744_073_709_552, // smallest value whose *1000 leaves u64
+                            2 => (1u64 << 56) - 1,
+                            3 => rng.below(1 << 56),
+                            _ => ((now as i64 - base as i64) / 1000 + delta).max(0) as u64,
+                        }
+                    }
+                    _ => rng.below(1 << 56),
+                };
+                ((rel as u64) << 63) | (metric << 61) | (reserved << 56) | (value & ((1 << 56) - 1))
+            };
+            ins.push(format!("{:#x}:{}", since, show_info(&info)));
+        }
+        let nd = rng.below(3);
+        let deps: Vec<String> = (0..nd).map(|_| show_info(&gen_info(rng))).collect();
+        v.push(format!("tx {} {}", ins.join(","), if deps.is_empty() { "-".into() } else { deps.join(",") }));
+    }
+    v
+}
+
+// ------------------------------------------------------------------------------------------------
+// stream: resolve
+// ------------------------------------------------------------------------------------------------
+
+#[derive(Clone)]
+enum St {
+    Live(Bytes),
+    Dead,
+    Unknown,
+}
+
+#[derive(Default)]
+struct Table {
+    map: HashMap<OutPoint, St>,
+}
+
+impl CellProvider for Table {
+    fn cell(&self, out_point: &OutPoint, eager_load: bool) -> CellStatus {
+        match self.map.get(out_point) {
+            None | Some(St::Unknown) => CellStatus::Unknown,
+            Some(St::Dead) => CellStatus::Dead,
+            Some(St::Live(data)) => CellStatus::live_cell(CellMeta {
+                cell_output: CellOutput::new_builder().capacity(Capacity::shannons(1000)).build(),
+                out_point: out_point.clone(),
+                transaction_info: None,
+                data_bytes: data.len() as u64,
+                mem_cell_data: if eager_load { Some(data.clone()) } else { None },
+                mem_cell_data_hash: None,
+            }),
+        }
+    }
+}
+
+struct Headers(HashSet<Byte32>);
+impl HeaderChecker for Headers {
+    fn check_valid(&self, block_hash: &Byte32) -> Result<(), OutPointError> {
+        if self.0.contains(block_hash) { Ok(()) } else { Err(OutPointError::InvalidHeader(block_hash.clone())) }
+    }
+}
+
+/// model-level view of the data of a cell, for the independent oracle
+#[derive(Clone)]
+enum SpecSt {
+    Live(Option<Vec<(u64, u64)>>),
+    Dead,
+    Unknown,
+}
+
+fn parse_data(s: &str) -> (Bytes, Option<Vec<(u64, u64)>>) {
+    if s == "-" {
+        (Bytes::new(), None)
+    } else if s == "x" {
+        (Bytes::from(vec![1u8, 2, 3, 4, 5, 6, 7]), None)
+    } else if s == "e" {
+        (OutPointVec::new_builder().build().as_bytes(), None)
+    } else if let Some(rest) = s.strip_prefix("g:") {
+        let ids: Vec<(u64, u64)> = rest
+            .split(',')
+            .map(|x| {
+                let (a, b) = x.split_once('.').expect("op");
+                (pnum(a), pnum(b))
+            })
+            .collect();
+        let v = OutPointVec::new_builder().set(ids.iter().map(|(a, b)| op_of(*a, *b)).collect()).build();
+        (v.as_bytes(), Some(ids))
+    } else if let Some(rest) = s.strip_prefix("r:") {
+        let (a, b) = rest.split_once(':').expect("r:tx:n");
+        let (tx, n) = (pnum(a), pnum(b));
+        let ids: Vec<(u64, u64)> = (0..n).map(|i| (tx, i)).collect();
+        let v = OutPointVec::new_builder().set(ids.iter().map(|(a, b)| op_of(*a, *b)).collect()).build();
+        (v.as_bytes(), if n == 0 { None } else { Some(ids) })
+    } else {
+        panic!("bad data {s:?}")
+    }
+}
+
+fn resolve_error_class(e: &OutPointError) -> String {
+    match e {
+        OutPointError::Dead(op) => format!("dead {}", show_op(op)),
+        OutPointError::Unknown(op) => format!("unknown {}", show_op(op)),
+        OutPointError::OutOfOrder(op) => format!("out-of-order {}", show_op(op)),
+        OutPointError::InvalidDepGroup(op) => format!("invalid-dep-group {}", show_op(op)),
+        OutPointError::InvalidHeader(h) => {
+            let mut b = [0u8; 8];
+            b.copy_from_slice(&h.as_slice()[..8]);
+            format!("invalid-header {}", u64::from_le_bytes(b))
+        }
+        OutPointError::OverMaxDepExpansionLimit => "over-limit".to_string(),
+    }
+}
+
+fn exec_resolve(lines: &[String], out: &mut Out) {
+    let mut a = Table::default();
+    let mut b = Table::default();
+    let mut spec_a: HashMap<(u64, u64), SpecSt> = HashMap::new();
+    let mut spec_b: HashMap<(u64, u64), SpecSt> = HashMap::new();
+    let mut hdrs: HashSet<u64> = HashSet::new();
+    let mut seen: HashSet<OutPoint> = HashSet::new();
+    for line in lines {
+        let t: Vec<&str> = line.split(' ').collect();
+        match t[0] {
+            "cell" => {
+                let op = parse_op(t[2]);
+                let (bytes, members) = parse_data(t[4]);
+                let (st, sp) = match t[3] {
+                    "L" => (St::Live(bytes), SpecSt::Live(members)),
+                    "D" => (St::Dead, SpecSt::Dead),
+                    "U" => (St::Unknown, SpecSt::Unknown),
+                    _ => panic!("bad status"),
+                };
+                let key = op_ids(&op);
+                // first definition wins in the model (entries are prepended and looked up with find?): keep the last
+                if t[1] == "A" {
+                    a.map.insert(op, st);
+                    spec_a.insert(key, sp);
+                } else {
+                    b.map.insert(op, st);
+                    spec_b.insert(key, sp);
+                }
+                out.op(line, "ok");
+            }
+            "hdrs" => {
+                hdrs = plist(t[1]).iter().map(|s| pnum(s)).collect();
+                out.op(line, "ok");
+            }
+            "seen" => {
+                seen = plist(t[1]).iter().map(|s| parse_op(s)).collect();
+                out.op(line, "ok");
+            }
+            "tx" => {
+                let ins: Vec<OutPoint> = plist(t[1]).iter().map(|s| parse_op(s)).collect();
+                let deps: Vec<(bool, OutPoint)> = plist(t[2]).iter().map(|s| (s.starts_with('g'), parse_op(&s[1..]))).collect();
+                let hd: Vec<u64> = plist(t[3]).iter().map(|s| pnum(s)).collect();
+                let mut tb = TransactionBuilder::default();
+                for op in &ins {
+                    tb = tb.input(CellInput::new(op.clone(), 0));
+                }
+                for (g, op) in &deps {
+                    tb = tb.cell_dep(CellDep::new_builder().out_point(op.clone()).dep_type(if *g { DepType::DepGroup } else { DepType::Code }).build());
+                }
+                for h in &hd {
+                    tb = tb.header_dep(hdr_hash_id(*h));
+                }
+                let tx = tb.build();
+                let provider = OverlayCellProvider::new(&a, &b);
+                let checker = Headers(hdrs.iter().map(|h| hdr_hash_id(*h)).collect());
+                let seen_before: HashSet<OutPoint> = seen.clone();
+                let r = resolve_transaction(tx.clone(), &mut seen, &provider, &checker);
+                let ans = match &r {
+                    Ok(rtx) => format!(
+                        "ok in={} cd={} gr={} seen={}",
+                        show_ops(rtx.resolved_inputs.iter().map(|m| &m.out_point)),
+                        show_ops(rtx.resolved_cell_deps.iter().map(|m| &m.out_point)),
+                        show_ops(rtx.resolved_dep_groups.iter().map(|m| &m.out_point)),
+                        seen.len()
+                    ),
+                    Err(e) => resolve_error_class(e),
+                };
+                out.op(line, &ans);
+                let class = ans.split(' ').next().unwrap().to_string();
+                out.count(&format!("verdict:{class}"));
+                out.nontrivial(format!("{class}/in{}/deps{}{}/h{}", ins.len(), deps.len(), if deps.iter().any(|d| d.0) { "g" } else { "" }, hd.len()));
+                // ---- oracle: the acceptance predicate of the property, evaluated on the tables
+                let status = |k: &(u64, u64)| -> SpecSt {
+                    match spec_a.get(k) {
+                        Some(SpecSt::Live(m)) => SpecSt::Live(m.clone()),
+                        Some(SpecSt::Dead) => SpecSt::Dead,
+                        _ => spec_b.get(k).cloned().unwrap_or(SpecSt::Unknown),
+                    }
+                };
+                let usable = |k: &(u64, u64)| -> bool { !seen_before.contains(&op_of(k.0, k.1)) && matches!(status(k), SpecSt::Live(_)) };
+                let cellbase = ins.len() == 1 && ins[0].is_null();
+                let in_ids: Vec<(u64, u64)> = ins.iter().map(op_ids).collect();
+                let mut ok = true;
+                if !cellbase {
+                    let distinct: HashSet<&(u64, u64)> = in_ids.iter().collect();
+                    ok &= distinct.len() == in_ids.len();
+                    ok &= in_ids.iter().all(|k| usable(k));
+                }
+                let mut expansion: u64 = 0;
+                for (g, op) in &deps {
+                    let k = op_ids(op);
+                    if !usable(&k) {
+                        ok = false;
+                        continue;
+                    }
+                    if *g {
+                        match status(&k) {
+                            SpecSt::Live(Some(ms)) => {
+                                expansion += ms.len() as u64;
+                                ok &= ms.iter().all(|m| usable(m));
+                            }
+                            _ => ok = false,
+                        }
+                    } else {
+                        expansion += 1;
+                    }
+                }
+                ok &= expansion <= 2048;
+                ok &= hd.iter().all(|h| hdrs.contains(h));
+                if ok != r.is_ok() {
+                    out.oracle_fail(if ok { "resolve-rejects-valid" } else { "resolve-accepts-invalid" }, &format!("spec={ok} impl={ans} op={line}"));
+                }
+                // seen grows by exactly the inputs of an accepted non-cellbase tx, and not at all otherwise
+                let mut expect_seen = seen_before.clone();
+                if r.is_ok() && !cellbase {
+                    expect_seen.extend(ins.iter().cloned());
+                }
+                if expect_seen != seen {
+                    out.oracle_fail("resolve-seen-set", &format!("op={line}"));
+                }
+            }
+            _ => panic!("resolve: bad op {line:?}"),
+        }
+    }
+}
+
+fn gen_resolve(rng: &mut Rng) -> Vec<String> {
+    let mut v = vec![];
+    let ntx = rng.range(3, 8);
+    let ops: Vec<(u64, u64)> = (1..=ntx).flat_map(|t| (0..3).map(move |i| (t, i))).collect();
+    let show = |k: &(u64, u64)| format!("{}.{}", k.0, k.1);
+    let big = rng.chance(1, 6);
+    let mut groups: Vec<(u64, u64)> = vec![];
+    for k in &ops {
+        // table B (the "store")
+        let stb = match rng.below(10) {
+            0..=5 => "L",
+            6..=8 => "U",
+            _ => "D",
+        };
+        let data = |rng: &mut Rng, groups: &mut Vec<(u64, u64)>| -> String {
+            match rng.below(12) {
+                0 => "x".into(),
+                1 => "e".into(),
+                2..=4 => {
+                    let n = rng.range(1, 4);
+                    groups.push(*k);
+                    let ms: Vec<String> = (0..n).map(|_| show(rng.pick(&ops))).collect();
+                    format!("g:{}", ms.join(","))
+                }
+                _ => "-".into(),
+            }
+        };
+        let d = data(rng, &mut groups);
+        v.push(format!("cell B {} {} {}", show(k), stb, d));
+        // table A (the overlay): mostly unknown
+        if rng.chance(1, 3) {
+            let sta = match rng.below(6) {
+                0..=2 => "L",
+                3..=4 => "D",
+                _ => "U",
+            };
+            let d = data(rng, &mut groups);
+            v.push(format!("cell A {} {} {}", show(k), sta, d));
+        }
+    }
+    let mut big_groups: Vec<(u64, u64)> = vec![];
+    if big {
+        // big dep groups around MAX_DEP_EXPANSION_LIMIT; members (50+j, i) live in B
+        let sizes = [2047u64, 2048, 2049, 1024, 1023, 1];
+        for (j, n) in sizes.iter().enumerate() {
+            let tx = 50 + j as u64;
+            let op = (40u64, j as u64);
+            v.push(format!("cell B {}.{} L r:{}:{}", op.0, op.1, tx, n));
+            big_groups.push(op);
+            let live_upto = if rng.chance(1, 6) { n - 1 } else { *n };
+            for i in 0..live_upto {
+                v.push(format!("cell B {}.{} L -", tx, i));
+            }
+        }
+    }
+    let valid: Vec<u64> = (1..=5).filter(|_| rng.chance(2, 3)).collect();
+    v.push(format!("hdrs {}", if valid.is_empty() { "-".into() } else { valid.iter().map(|x| x.to_string()).collect::<Vec<_>>().join(",") }));
+    if rng.chance(1, 5) {
+        let mut s: Vec<(u64, u64)> = (0..rng.range(1, 3)).map(|_| *rng.pick(&ops)).collect();
+        s.sort();
+        s.dedup();
+        v.push(format!("seen {}", s.iter().map(&show).collect::<Vec<_>>().join(",")));
+    }
+    let n = rng.range(1, 5);
+    for _ in 0..n {
+        let ins: Vec<String> = if rng.chance(1, 12) {
+            vec!["0.4294967295".into()]
+        } else {
+            let k = rng.below(4);
+            let mut l: Vec<String> = (0..k).map(|_| show(rng.pick(&ops))).collect();
+            if !l.is_empty() && rng.chance(1, 10) {
+                let d = l[0].clone();
+                l.push(d);
+            }
+            if rng.chance(1, 30) {
+                l.push("0.4294967295".into());
+            }
+            l
+        };
+        let mut deps: Vec<String> = vec![];
+        if big && rng.chance(2, 3) {
+            let k = rng.range(1, 3);
+            for _ in 0..k {
+                let g = rng.pick(&big_groups);
+                deps.push(format!("g{}.{}", g.0, g.1));
+            }
+            if rng.chance(1, 2) {
+                deps.push(format!("c{}", show(rng.pick(&ops))));
+            }
+        } else {
+            let k = rng.below(4);
+            for _ in 0..k {
+                if !groups.is_empty() && rng.chance(1, 2) {
+                    deps.push(format!("g{}", show(rng.pick(&groups))));
+                } else if rng.chance(1, 8) {
+                    deps.push(format!("g{}", show(rng.pick(&ops))));
+                } else {
+                    deps.push(format!("c{}", show(rng.pick(&ops))));
+                }
+            }
+        }
+        let hd: Vec<String> = (0..rng.below(3)).map(|_| rng.range(1, 5).to_string()).collect();
+        let j = |l: &Vec<String>| if l.is_empty() { "-".to_string() } else { l.join(",") };
+        v.push(format!("tx {} {} {}", j(&ins), j(&deps), j(&hd)));
+    }
+    v
+}
+
+// ------------------------------------------------------------------------------------------------
+// stream: cap
+// ------------------------------------------------------------------------------------------------
+
+fn dao_hash() -> Byte32 {
+    hdr_hash_id(0xDA0)
+}
+
+fn script(args: usize, dao: bool) -> Script {
+    let b = Script::new_builder().args(Bytes::from(vec![7u8; args]).pack());
+    if dao { b.code_hash(dao_hash()).hash_type(ScriptHashType::Type).build() } else { b.hash_type(ScriptHashType::Data).build() }
+}
+
+fn exec_cap(lines: &[String], out: &mut Out) {
+    for line in lines {
+        let t: Vec<&str> = line.split(' ').collect();
+        assert!(t[0] == "cap", "cap: bad op {line:?}");
+        let ins: Vec<(u64, bool)> = plist(t[1])
+            .iter()
+            .map(|s| match s.split_once(':') {
+                Some((c, "d")) => (pnum(c), true),
+                None => (pnum(s), false),
+                _ => panic!("bad input"),
+            })
+            .collect();
+        let outs: Vec<(u64, u64, Option<u64>, u64)> = plist(t[2])
+            .iter()
+            .map(|s| {
+                let p: Vec<&str> = s.split(':').collect();
+                assert!(p.len() == 4);
+                (pnum(p[0]), pnum(p[1]), if p[2] == "n" { None } else { Some(pnum(p[2])) }, pnum(p[3]))
+            })
+            .collect();
+        let mut tb = TransactionBuilder::default();
+        for (k, _) in ins.iter().enumerate() {
+            tb = tb.input(CellInput::new(op_of(1 + k as u64, 0), 0));
+        }
+        for (c, l, ty, d) in &outs {
+            let mut ob = CellOutput::new_builder().capacity(Capacity::shannons(*c)).lock(script(*l as usize, false));
+            if let Some(a) = ty {
+                ob = ob.type_(Some(script(*a as usize, false)));
+            }
+            tb = tb.output(ob.build()).output_data(Bytes::from(vec![0u8; *d as usize]));
+        }
+        let rtx = Arc::new(ResolvedTransaction {
+            transaction: tb.build(),
+            resolved_inputs: ins
+                .iter()
+                .enumerate()
+                .map(|(k, (c, dao))| {
+                    let mut ob = CellOutput::new_builder().capacity(Capacity::shannons(*c)).lock(script(0, false));
+                    if *dao {
+                        ob = ob.type_(Some(script(0, true)));
+                    }
+                    CellMeta { cell_output: ob.build(), out_point: op_of(1 + k as u64, 0), ..Default::default() }
+                })
+                .collect(),
+            resolved_cell_deps: vec![],
+            resolved_dep_groups: vec![],
+        });
+        let r = quiet_catch(|| CapacityVerifier::new(rtx, dao_hash()).verify());
+        let ans = match &r {
+            Err(()) => "panic".to_string(),
+            Ok(Ok(())) => "ok".to_string(),
+            Ok(Err(e)) => match e.downcast_ref::<TransactionError>() {
+                Some(TransactionError::OutputsSumOverflow { .. }) => "outputs-sum-overflow".to_string(),
+                Some(TransactionError::InsufficientCellCapacity { index, .. }) => format!("insufficient {index}"),
+                Some(_) => "other-error".to_string(),
+                None => {
+                    if format!("{e:?}").contains("CapacityOverflow") { "overflow".to_string() } else { "other-error".to_string() }
+                }
+            },
+        };
+        out.op(line, &ans);
+        out.count(&format!("verdict:{}", ans.split(' ').next().unwrap()));
+        let exempt = ins.is_empty() || ins.iter().any(|x| x.1);
+        out.nontrivial(format!("{}/{}/{}/{}", ans.split(' ').next().unwrap(), ins.len(), outs.len(), exempt));
+        // oracle: exact arithmetic on u128
+        let sum_in: u128 = ins.iter().map(|x| x.0 as u128).sum();
+        let sum_out: u128 = outs.iter().map(|x| x.0 as u128).sum();
+        let mut ok = exempt || (sum_in < (1u128 << 64) && sum_out < (1u128 << 64) && sum_in >= sum_out);
+        for (c, l, ty, d) in &outs {
+            let bytes: u128 = 8 + 33 + *l as u128 + ty.map(|a| 33 + a as u128).unwrap_or(0) + *d as u128;
+            ok &= (*c as u128) >= bytes * 100_000_000;
+        }
+        match &r {
+            Ok(res) if res.is_ok() != ok => out.oracle_fail(if ok { "capacity-rejects-valid" } else { "capacity-accepts-invalid" }, &format!("spec={ok} impl={ans} op={line}")),
+            Err(()) => out.oracle_fail("capacity-verifier-panics", &format!("op={line}")),
+            _ => {}
+        }
+    }
+}
+
+fn gen_cap(rng: &mut Rng) -> Vec<String> {
+    let nout = rng.range(1, 4);
+    let mut outs = vec![];
+    let mut total: u128 = 0;
+    for _ in 0..nout {
+        let l = *rng.pick(&[0u64, 20, 32, 100]);
+        let ty = if rng.chance(1, 3) { Some(*rng.pick(&[0u64, 20, 32])) } else { None };
+        let d = *rng.pick(&[0u64, 0, 1, 8, 100, 1000]);
+        let occ = (8 + 33 + l + ty.map(|a| 33 + a).unwrap_or(0) + d) * 100_000_000;
+        let c = match rng.below(10) {
+            0 => occ - 1,
+            1 | 2 => occ,
+            3 => occ + 1,
+            4 => u64::MAX - rng.below(3),
+            5 => 0,
+            _ => occ + rng.below(1_000_000_000_000),
+        };
+        total += c as u128;
+        outs.push(format!("{}:{}:{}:{}", c, l, ty.map(|a| a.to_string()).unwrap_or("n".into()), d));
+    }
+    let nin = if rng.chance(1, 12) { 0 } else { rng.range(1, 3) };
+    let mut ins = vec![];
+    let target = (total.min(u64::MAX as u128) as u64) as i128 + *rng.pick(&[0i128, 0, 1, -1, 1000, -1000]);
+    let mut left = target.max(0) as u128;
+    for k in 0..nin {
+        let c: u64 = if k + 1 == nin {
+            left.min(u64::MAX as u128) as u64
+        } else {
+            let x = if left == 0 { 0 } else { (rng.next() as u128 % (left + 1)) as u64 };
+            left -= x as u128;
+            x
+        };
+        let c = if rng.chance(1, 20) { u64::MAX - rng.below(2) } else { c };
+        ins.push(format!("{}{}", c, if rng.chance(1, 10) { ":d" } else { "" }));
+    }
+    vec![format!("cap {} {}", if ins.is_empty() { "-".into() } else { ins.join(",") }, outs.join(","))]
+}
+
+// ------------------------------------------------------------------------------------------------
+// entry
+// ------------------------------------------------------------------------------------------------
+
+pub fn run(opts: &Opts) {
+    // panics of the code under test are caught and reported as verdicts; keep stderr quiet
+    let default_hook = std::panic::take_hook();
+    std::panic::set_hook(Box::new(move |info| {
+        let msg = info.to_string();
+        if msg.contains("attempt to") || msg.contains("denominator == 0") || msg.contains("header exist") || msg.contains("block exist") {
+            return;
+        }
+        default_hook(info);
+    }));
+    let stream = opts.extra.first().map(|s| s.as_str()).unwrap_or("time").to_string();
+    let mut out = Out::new(&opts.out);
+    let exec: fn(&[String], &mut Out) = match stream.as_str() {
+        "time" => exec_time,
+        "resolve" => exec_resolve,
+        "cap" => exec_cap,
+        _ => panic!("C04: unknown stream {stream}"),
+    };
+    if let Some(rp) = &opts.replay {
+        let lines = read_replay_ops(rp);
+        let mut cur: Vec<String> = vec![];
+        let mut label = String::from("replay");
+        let mut started = false;
+        let flush = |cur: &mut Vec<String>, label: &str, out: &mut Out, started: bool| {
+            if started || !cur.is_empty() {
+                out.begin_case(label);
+                exec(cur, out);
+                cur.clear();
+            }
+        };
+        for l in lines {
+            if l.starts_with("case ") {
+                flush(&mut cur, &label, &mut out, started);
+                started = true;
+                label = l.splitn(3, ' ').nth(2).unwrap_or("replay").to_string();
+            } else {
+                cur.push(l);
+            }
+        }
+        flush(&mut cur, &label, &mut out, started);
+        out.finish("replay");
+        return;
+    }
+    let mut rng = Rng::new(opts.seed ^ match stream.as_str() { "time" => 0x71, "resolve" => 0x72, _ => 0x73 });
+    let base = match stream.as_str() {
+        "time" => 1500,
+        "resolve" => 1500,
+        _ => 4000,
+    };
+    let cases = base * opts.scale * if opts.thorough() { 12 } else { 1 };
+    for _ in 0..cases {
+        let lines = match stream.as_str() {
+            "time" => gen_time(&mut rng),
+            "resolve" => gen_resolve(&mut rng),
+            _ => gen_cap(&mut rng),
+        };
+        out.begin_case(&stream);
+        exec(&lines, &mut out);
+    }
+    let rule = match stream.as_str() {
+        "time" => "a tx line is non-trivial if some input has a non-zero since or some referenced cell is a non-genesis cellbase output; fingerprint = phase / verdict class / (relative bit, metric, has-tx-info) per non-zero since",
+        "resolve" => "every tx line; fingerprint = verdict class / #inputs / #deps (g if a dep group is used) / #header deps",
+        _ => "every cap line; fingerprint = verdict class / #inputs / #outputs / exemption",
+    };
+    out.finish(rule);
 }
